@@ -35,7 +35,10 @@ R_FACTORY = None
 # ---------------------------------------------------------------------------- slimta.smtp.client.Client (assumed here; C10)
 # the relay sees slimta.smtp.client.Client through an ASSUMED interface (ClientView); the real Client methods
 # that are under contract are in contracts/slimta_smtp_client.py (C10)
-klass('ClientView', fields={'last_error': 'Reply', 'extensions': 'Extensions', 'io': 'IO'})
+klass('ClientView', fields={'last_error': 'Reply', 'extensions': 'Extensions'})
+# Client.io is assigned once, in the constructor: a read-only view (a pure function of the client object)
+extern('ClientView.io', params={'self': 'ClientView'}, returns='IO', is_property=True, pure=True, ensures=['result != None'],
+       notes='Client.io: the IO object created by the constructor, never reassigned')
 SCOPE = ['in_timeout_scope()']
 CL_RAISES = {'ConnectionLost': [], 'BadReply': [], 'OSError': [], 'Timeout': []}
 for _m, _p in (('get_banner', {}), ('ehlo', {'ehlo_as': 'Any'}), ('helo', {'ehlo_as': 'Any'}),
@@ -75,7 +78,7 @@ extern('ClientView.has_reply_waiting', params={'self': 'ClientView'}, returns='B
 extern('IO.close', params={'self': 'IO'})
 
 klass('SmtpRelayClient', ['RelayPoolClient'], module=M,
-      fields={'client': 'ClientView', 'address': 'Any', 'socket': 'Any', 'socket_creator': 'Any', 'ehlo_as': 'Any',
+      fields={'client': 'ClientView', 'address': 'Any', 'socket': 'Any', 'socket_creator': 'SocketCreator', 'ehlo_as': 'UserCallable',
               'context': 'Any', 'auth_mechanism': 'Any', 'tls_immediately': 'Bool', 'tls_required': 'Bool',
               'connect_timeout': 'Opt[Real]', 'command_timeout': 'Opt[Real]', 'data_timeout': 'Opt[Real]',
               'credentials': 'Any', 'binary_encoder': 'Any', 'current_command': 'Any'})
@@ -143,9 +146,11 @@ contract('SmtpRelayClient._get_error_reply', props=['C11'],
          ensures=['result != None', 'result.code == "421"'],
          modifies=['fresh'], **RC)
 
-contract('SmtpRelayClient._ehlo', kind='extern', params={'self': 'SmtpRelayClient'}, returns='Reply', yields=True,
-         raises=ERR, notes='SmtpRelayClient._ehlo assumed at its call sites (calls a user-supplied ehlo_as callable '
-                           'under `except TypeError`; its Timeout scope is the same pattern as _helo)')
+# ehlo_as / socket_creator are user-supplied values: "a callable or a plain value" (tried by calling, TypeError = plain)
+klass('UserCallable')
+extern('UserCallable.__call__', params={'self': 'UserCallable', 'arg': 'Any'}, returns='Any', raises={'TypeError': []},
+       notes='user-supplied ehlo_as: a function of the address, or a string (calling it raises TypeError); does not block')
+stage('_ehlo', ensures=['result != None', 'not result.is_error()'])
 contract('SmtpRelayClient._authenticate', kind='extern', params={'self': 'SmtpRelayClient'}, yields=True,
          raises=ERR, notes='SmtpRelayClient._authenticate assumed at its call site (user-supplied credentials callable)')
 
@@ -273,13 +278,26 @@ extern('SmtpRelayClient.poll', params={'self': 'SmtpRelayClient'}, returns='Tupl
        notes='RelayPoolClient.poll as seen by _run (assumed view; poll itself is under contract for C19): the next '
              'delivery request of the pool queue, or (None, None) after the idle timeout; an envelope handed to a relay '
              'has at least one recipient and no recipient twice')
-extern('SmtpRelayClient._connect', params={'self': 'SmtpRelayClient'}, yields=True,
-       modifies=['self.socket', 'self.client'], ensures=['self.client != None'],
-       raises={'OSError': [], 'Timeout': []},
-       notes='SmtpRelayClient._connect assumed at its call site in _run (socket_creator under Timeout(connect_timeout))')
-extern('SmtpRelayClient._disconnect', params={'self': 'SmtpRelayClient'}, yields=True,
-       raises={'AssertionError': [], 'OSError': [], 'OtherException': []},
-       notes='SmtpRelayClient._disconnect assumed at its call site in _run (QUIT best effort, socket closed)')
+klass('SocketCreator')
+extern('SocketCreator.__call__', params={'self': 'SocketCreator', 'address': 'Any'}, returns='Any', yields=True,
+       requires=SCOPE, raises={'OSError': [], 'Timeout': []},
+       notes='socket_creator (default gevent.socket.create_connection): blocks while connecting (G4 scope required)')
+extern('SmtpRelayClient._client_class', params={'self': 'SmtpRelayClient', 'socket': 'Any', 'address': 'Any'},
+       returns='ClientView', ensures=['result != None', 'fresh(result)'],
+       notes='SmtpRelayClient._client_class = slimta.smtp.client.Client (LmtpClient in the LMTP relay): the constructor '
+             'only wraps the socket')
+contract('SmtpRelayClient._connect', props=['C11', 'C14'], params={'self': 'SmtpRelayClient'},
+         requires=['self.socket_creator != None'],
+         # the connection attempt is bounded by connect_timeout; on success there is a client to talk through
+         ensures=['self.client != None'],
+         raises={'OSError': [], 'Timeout': []},
+         modifies=['self.socket', 'self.client', 'fresh'], **RC)
+contract('SmtpRelayClient._disconnect', props=['C11', 'C14'], params={'self': 'SmtpRelayClient'},
+         # QUIT is best effort and bounded by command_timeout: whatever it raises is swallowed, and the socket is
+         # closed exactly once; the only thing that escapes is the assertion when there never was a connection
+         checks=['ncalls("IO.close") == 1', 'ncalls("ClientView.quit") == 1'],
+         raises={'AssertionError': ['self.client == None', 'ncalls("IO.close") == 0']},
+         modifies=['fresh'], **RC)
 extern('AsyncResult.__bool__', params={})
 
 # ... exactly one of the two: put back UNANSWERED (the next client answers it), or answered once by this client
@@ -287,7 +305,7 @@ DONE = ('self.cur == None or (self.requeued and self.cur.n_answers == 0) '
         'or (not self.requeued and self.cur.answered and self.cur.n_answers == 1)')
 contract('SmtpRelayClient._run', props=['C11', 'C19'], yields=True,
          params={'self': 'SmtpRelayClient'},
-         requires=['self.queue != None', 'INV_deque(self.queue)', 'not self.requeued'],
+         requires=['self.queue != None', 'INV_deque(self.queue)', 'not self.requeued', 'self.socket_creator != None'],
          ghost_after={'result, envelope = self.poll()': ['self.cur = result'],
                       'self.queue.appendleft((result, envelope))': ['self.requeued = True']},
          # C11/C19: whatever the server does, the request this connection holds when it ends has been answered exactly
